@@ -40,7 +40,10 @@ COLLISION_NAMES = ["Data", "Encrypt", "Protocol", "Net", "Map", "Pub", "Client",
                    "FlipMsb", "SwapMultiples", "EncodeNumber", "DecodeNumber", "EncodeString", "DecodeString",
                    "ServerVerificationHash", "EoNumericLimits", "NumberEncodingUtils", "EncryptionUtils",
                    # names of helpers that leak into the eolib namespace through the static star-imports
-                   "ABC", "EnumMeta", "Random"]
+                   "ABC", "EnumMeta", "Random",
+                   # names a future generated module might import from typing / collections.abc / the library
+                   "Sequence", "Mapping", "List", "Dict", "Any", "Callable", "Tuple", "Set", "Final", "Literal", "Enum",
+                   "Path", "Bytes", "Str", "Int", "Bool", "Object", "Self", "Writer", "Reader"]
 FILESYSTEM_COLLISIONS = {"": {"map", "net", "pub"}, "net": {"client", "server"}, "pub": {"server"}}
 FAMILIES = ["Connection", "Account", "Character", "Login", "Welcome", "Walk", "Face", "Chair", "Emote", "Attack",
             "Spell", "Shop", "Item", "StatSkill", "Global", "Talk", "Warp", "Jukebox", "Players", "Avatar", "Party",
@@ -81,7 +84,7 @@ class Knobs:
         self.upward_refs = False
         self.sibling_refs = rng.random() < 0.5   # types may refer to types of directories earlier in ORDER
         self.net_last = rng.random() < 0.3       # net types may refer to net/client and net/server types (not vice versa)
-        self.p_collision_name = 0.2 if rng.random() < 0.3 else 0.0
+        self.p_collision_name = 0.25 if rng.random() < 0.35 else 0.0
 
 
 class TypeInfo:
@@ -407,7 +410,7 @@ class SpecGen:
                     return ([f'{indent}<field name="{fname}" type="bool">{v}</field>'],
                             dict(first_consumes=True, min_size=1, fixed=1, bounded=True))
                 return [f'{indent}<field type="bool">{v}</field>'], dict(first_consumes=True, min_size=1, fixed=1, bounded=True)
-            s = rng.choice(["abc", "Hello", "x", "EO v28", "ok!"])
+            s = rng.choice(["abc", "Hello", "x", "EO v28", "ok!", "\u00ffes", "na\u00efve"])
             stype = rng.choice(["string", "encoded_string"])
             named = f'name="{name()}" ' if rng.random() < 0.5 else ""
             if rng.random() < 0.12:
